@@ -696,10 +696,7 @@ func scenDisrupt(x *Ctx) {
 	time.Sleep(2 * x.ET())
 	stopW.Store(true)
 	wg.Wait()
-	x.M.Emit(mon.Event{Kind: mon.KPhase, Str: "c16.end"})
-	if st := x.C.StallMaxNs.Load(); st >= int64(x.ET())/4 {
-		x.Inconclusive("scheduler stall of %d ms >= a quarter of the election timeout during the window", st/1e6)
-	}
+	x.M.Emit(mon.Event{Kind: mon.KPhase, Str: fmt.Sprintf("c16.end|%d", x.C.StallMaxNs.Load())})
 	x.NT("c16-window")
 	x.C.Net.Heal()
 }
@@ -775,11 +772,7 @@ func scenLease(x *Ctx) {
 	time.Sleep(6*lease + time.Duration(r.Intn(200))*time.Millisecond)
 	stopR.Store(true)
 	wg.Wait()
-	x.M.Emit(mon.Event{Kind: mon.KPhase, Str: "c17.end"})
-	stall := x.C.StallMaxNs.Load()
-	if int64(lease)+x.C.Net.MaxRTT+stall >= int64(x.ET()) {
-		x.Inconclusive("timing assumption not met on this run: lease %d ms + max round trip %d ms + max stall %d ms >= election timeout %d ms", lease/time.Millisecond, x.C.Net.MaxRTT/1e6, stall/1e6, x.ET()/time.Millisecond)
-	}
+	x.M.Emit(mon.Event{Kind: mon.KPhase, Str: fmt.Sprintf("c17.end|%d|%d", x.C.StallMaxNs.Load(), x.C.Net.MaxRTT)})
 	x.NT("c17-window")
 	x.C.Net.Heal()
 	x.finishDirected()
@@ -877,11 +870,8 @@ func scenLingering(x *Ctx) {
 	time.Sleep(time.Duration(4+r.Intn(4)) * x.ET())
 	stop.Store(true)
 	wg.Wait()
-	x.M.Emit(mon.Event{Kind: mon.KPhase, Str: "c16.end"})
-	x.M.Emit(mon.Event{Kind: mon.KPhase, Str: "c17.end"})
-	if st := x.C.StallMaxNs.Load(); st >= int64(x.ET())/4 {
-		x.Inconclusive("scheduler stall of %d ms >= a quarter of the election timeout during the window", st/1e6)
-	}
+	x.M.Emit(mon.Event{Kind: mon.KPhase, Str: fmt.Sprintf("c16.end|%d", x.C.StallMaxNs.Load())})
+	x.M.Emit(mon.Event{Kind: mon.KPhase, Str: fmt.Sprintf("c17.end|%d|%d", x.C.StallMaxNs.Load(), x.C.Net.MaxRTT)})
 	x.NT("c16-window")
 	x.NT("lingering-candidate")
 	x.C.Net.Heal()
@@ -985,11 +975,7 @@ func scenLeaseVote(x *Ctx) {
 	time.Sleep(time.Duration(3+r.Intn(3)) * x.ET())
 	stop.Store(true)
 	wg.Wait()
-	x.M.Emit(mon.Event{Kind: mon.KPhase, Str: "c17.end"})
-	stall := x.C.StallMaxNs.Load()
-	if int64(lease)+x.C.Net.MaxRTT+stall >= int64(x.ET()) {
-		x.Inconclusive("timing assumption not met on this run: lease %d ms + max round trip %d ms + max stall %d ms >= election timeout %d ms", lease/time.Millisecond, x.C.Net.MaxRTT/1e6, stall/1e6, x.ET()/time.Millisecond)
-	}
+	x.M.Emit(mon.Event{Kind: mon.KPhase, Str: fmt.Sprintf("c17.end|%d|%d", x.C.StallMaxNs.Load(), x.C.Net.MaxRTT)})
 	x.NT("c17-window")
 	x.NT("lease-vote")
 	x.C.Net.Heal()
@@ -1046,7 +1032,7 @@ func scenInstallCrash(x *Ctx) {
 		}
 		x.Step("restart %s", f)
 		if err := x.C.Node(f).Restart(); err != nil {
-			x.M.AddViolation(mon.Violation{Props: []string{"C14", "C13"}, Sig: "restart-failed", Node: f, Msg: fmt.Sprintf("node %s could not be created/started over its directory after %q: %v", f, x.C.Node(f).LastCrash, err)})
+			x.M.AddViolation(mon.Violation{Props: restartProps(err), Sig: "restart-failed", Node: f, Msg: fmt.Sprintf("node %s could not be created/started over its directory after %q: %v", f, x.C.Node(f).LastCrash, err)})
 		}
 	}
 	x.NT("install-crash")
@@ -1118,3 +1104,55 @@ func scenStaleInstall(x *Ctx) {
 }
 
 func init() { Registry["w2.staleinstall"] = scenStaleInstall }
+
+// scenBoundaryLag: a member's log ends exactly one entry before (or exactly at) the leader's snapshot boundary
+// when it returns; no further faults. It must catch up (C15).
+func scenBoundaryLag(x *Ctx) {
+	r := x.R
+	thr := x.C.Opts.FSM.SnapThreshold
+	if thr <= 0 {
+		x.Inconclusive("needs snapshots")
+		return
+	}
+	all, l, ok := x.startStatic(3)
+	if !ok {
+		return
+	}
+	f := x.others(l)[r.Intn(2)]
+	lastIdx := func(id string) (uint64, int) {
+		x.M.Lock()
+		defer x.M.Unlock()
+		if sh := x.M.Nodes[id]; sh != nil {
+			return sh.LastIndex(), int(sh.LastIndex() - sh.BaseIndex())
+		}
+		return 0, 0
+	}
+	// fill the leader's log to one entry below the snapshot threshold, with the follower fully caught up
+	for i := 0; i < 4*thr; i++ {
+		if _, size := lastIdx(l); size >= thr-1 {
+			break
+		}
+		x.Writes(1, l, 1, time.Second)
+	}
+	li, size := lastIdx(l)
+	if size != thr-1 {
+		x.Inconclusive("could not bring the leader's log to threshold-1 (size %d, threshold %d)", size, thr)
+		return
+	}
+	x.WaitFor(time.Second, func() bool { fi, _ := lastIdx(f); return fi == li })
+	extra := 1 + r.Intn(2) // the follower will miss 1 entry (ends at boundary-1) or 2
+	x.Step("isolate %s at index %d; the leader writes %d more and snapshots", f, li, extra)
+	x.C.Net.Partition([]string{f}, minus(all, []string{f}))
+	x.Writes(2, l, extra, time.Second)
+	x.WaitFor(2*time.Second, func() bool { s := x.C.Node(l).Sample(); return s != nil && s.LII > li })
+	if s := x.C.Node(l).Sample(); s != nil {
+		x.Step("leader snapshot boundary %d, follower log ends at %d", s.LII, li)
+		if s.LII == li+1 {
+			x.NT("ends-one-before-boundary")
+		}
+	}
+	x.NT("boundary-lag")
+	x.finishDirected()
+}
+
+func init() { Registry["w2.boundarylag"] = scenBoundaryLag }
